@@ -1,21 +1,9 @@
 #![no_main]
 //! C17: arbitrary bytes read as bincode (first byte selects the graph type) and, when they are valid
-//! UTF-8, as JSON.  Oracle = props::c17::judge_bytes (Err, or a fully consistent graph that survives
-//! further use; a panic is a crash).
+//! UTF-8, as JSON.  Oracle = props::c17 (Err, or a fully consistent graph that survives further use; a
+//! panic is a crash).  A failing input is also written as a replay file for `./check replay`.
 use libfuzzer_sys::fuzz_target;
-use pgcheck::engine::Obs;
 
 fuzz_target!(|data: &[u8]| {
-    if data.is_empty() {
-        return;
-    }
-    let mut obs = Obs::default();
-    if let Err(f) = pgcheck::props::c17::judge_bytes(&data[1..], data[0], &mut obs) {
-        panic!("C17 {}: {}", f.sig, f.msg);
-    }
-    if let Ok(text) = std::str::from_utf8(&data[1..]) {
-        if let Err(f) = pgcheck::props::c17::judge_json(text, data[0], &mut obs) {
-            panic!("C17 {}: {}", f.sig, f.msg);
-        }
-    }
+    pgcheck::props::c17::fuzz_raw(data);
 });
